@@ -420,3 +420,122 @@ def _domain_validate_conn_edges(n):
 
 
 DOMAIN[N_ + 'ConnectionChoiceNode.validate_conn_edges'] = _domain_validate_conn_edges
+
+
+# ---- connector grouping node: aggregate degree of the members that exist in *this* graph (C11, C08) -------------------
+# The grouping node object is shared between all graphs derived from one model and carries the aggregate as plain
+# fields; `update_deg` rewrites exactly these fields from the member connectors of the graph it is given (filtered by
+# the existing nodes when asked) and nothing else.
+CLASSES['ConnectorNode'] = {'deg_list': 'Optional[List[Int]]', 'deg_min': 'Optional[Int]', 'deg_max': 'Optional[Real]',
+                            'repeated_allowed': 'Bool', 'perm_decision_link_key': 'Optional[Int]'}
+CLASSES['ConnectorDegreeGroupingNode'] = {'__bases__': ('ConnectorNode',)}     # class ConnectorDegreeGroupingNode(ConnectorNode)
+CONTRACTS[N_ + 'ConnectorDegreeGroupingNode.get_repeated_allowed'] = dict(
+    properties=['C11', 'C08'],
+    types={'connectors': 'List[Ref[ConnectorNode]]'},
+    returns='Bool',
+    loops={'for connector in connectors': dict(index='k', invariant={
+        'none-so-far': 'forall(j, 0, k, not connectors[j].repeated_allowed)'})},
+    ensures={'iff-some-member-allows-repeats': ('property', 'result == exists(j, 0, len(connectors), connectors[j].repeated_allowed)')},
+    modifies=[],
+)
+
+
+def _domain_repeated_allowed(n):
+    import random, os
+    from adsg_core.graph.adsg_nodes import ConnectorNode, ConnectorDegreeGroupingNode
+    rng = random.Random(9300 + int(os.environ.get('VERIF_SEED', '0') or 0))
+    for _ in range(n):
+        cs = [ConnectorNode(f'c{i}', deg_list=[1], repeated_allowed=rng.random() < 0.3) for i in range(rng.randint(0, 4))]
+        yield ({'connectors': cs}, (lambda cs=cs: ConnectorDegreeGroupingNode.get_repeated_allowed(cs)), {},
+               f'get_repeated_allowed({[c.repeated_allowed for c in cs]})')
+
+
+DOMAIN = dict(globals().get('DOMAIN', {}))
+DOMAIN[N_ + 'ConnectorDegreeGroupingNode.get_repeated_allowed'] = _domain_repeated_allowed
+
+
+ITER_IN_T = dict(params=['graph', 'node', 'edge_type'], types={}, returns=f'List[{EDGE}]', modifies=[], assumed=True,
+                 ensures=[f"forall('e:{EDGE}', (e in result) == (e in graph.edge_set and e[1] == node and e[3] == edge_type))"])
+DEG3 = 'Tuple[Optional[List[Int]],Optional[Int],Optional[Real]]'
+MEMBER_OF = f"exists('e:{EDGE}', e in graph.edge_set and e[0] == x and e[1] == self and e[3] == EdgeType.DERIVES)"
+# variant: the call shape of every call site in the library (DSG._update_connector_grouping_degrees, _get_assign_nodes,
+# get_unconnected_connectors, BasicDSG): no `existing_nodes` filter.  With a filter set the path condition contains the
+# member list as a lambda term under the quantified facts of the filtering comprehension; z3 gives `unknown` at once
+# (incomplete array theory) and cvc5 does not take lambdas -- that call shape is left to the bounded layer.
+CONTRACTS[N_ + 'ConnectorDegreeGroupingNode.update_deg@whole-graph'] = dict(
+    properties=['C11', 'C08'],
+    requires={'no-existence-filter': 'existing_nodes is None'},
+    comprehension_as_array=True,
+    types={'self': 'Ref[ConnectorDegreeGroupingNode]', 'graph': 'Ref[NxGraph]', 'existing_nodes': 'Optional[Set[Ref]]'},
+    locals={'connectors': 'List[Ref[ConnectorNode]]'},
+    post_locals=['connectors'],
+    funcs={'COMBINED': (['List[Ref[ConnectorNode]]'], DEG3), 'REPEATED': (['List[Ref[ConnectorNode]]'], 'Bool')},
+    defs={'member': (('x',), MEMBER_OF)},
+    calls={
+        'iter_in_edges': ITER_IN_T,
+        # the two aggregations are functions of the member list (get_repeated_allowed is under contract above;
+        # get_combined_deg -- math.inf, itertools.product -- is bounded only)
+        'self.get_combined_deg': dict(params=['cs'], types={}, returns=DEG3, modifies=[], assumed=True, receiver='self', pure_expr='COMBINED(cs)'),
+        'self.get_repeated_allowed': dict(params=['cs'], types={}, returns='Bool', modifies=[], assumed=True, receiver='self', pure_expr='REPEATED(cs)'),
+    },
+    loops={'for node in connectors': dict(index='k', invariant={
+        'no-earlier-member-had-a-key': 'forall(j, 0, k, not connectors[j].perm_decision_link_key)',
+        'link-keys-untouched-so-far': "forall('x:Ref[ConnectorNode]', x.perm_decision_link_key == old(x.perm_decision_link_key))",
+        'aggregate-kept': 'self.deg_list == COMBINED(connectors)[0] and self.deg_min == COMBINED(connectors)[1] and self.deg_max == COMBINED(connectors)[2] and self.repeated_allowed == REPEATED(connectors)',
+    })},
+    ensures={
+        # statement of C11: the grouping connector aggregates exactly its members that are present
+        'only-present-members-counted': ('property', "forall(j, 0, len(final_connectors), member(final_connectors[j]) and implies(existing_nodes is not None, final_connectors[j] in existing_nodes))"),
+        'every-present-member-counted': ('property', "forall('x:Ref', implies(member(x) and implies(existing_nodes is not None, x in existing_nodes), x in final_connectors))"),
+        'aggregate-degree-of-exactly-these': ('property', 'self.deg_list == COMBINED(final_connectors)[0] and self.deg_min == COMBINED(final_connectors)[1] and self.deg_max == COMBINED(final_connectors)[2]'),
+        'repeat-flag-of-exactly-these': ('property', 'self.repeated_allowed == REPEATED(final_connectors)'),
+    },
+    modifies=['self.deg_list', 'self.deg_min', 'self.deg_max', 'self.repeated_allowed', 'self.perm_decision_link_key'],
+)
+
+
+def _domain_update_deg(n):
+    import random, os
+    import networkx as nx
+    from adsg_core.graph.graph_edges import EdgeType, add_edge, HashableDict
+    from adsg_core.graph.adsg_nodes import NamedNode, ConnectorNode, ConnectorDegreeGroupingNode
+    rng = random.Random(9400 + int(os.environ.get('VERIF_SEED', '0') or 0))
+    for _ in range(n):
+        members = [ConnectorNode(f'c{i}', deg_list=sorted(rng.sample(range(0, 4), rng.randint(1, 2))),
+                                 repeated_allowed=rng.random() < 0.4) for i in range(rng.randint(0, 3))]
+        others = [ConnectorNode(f'o{i}', deg_list=[7], repeated_allowed=True) for i in range(rng.randint(0, 2))]
+        grp = ConnectorDegreeGroupingNode('g')
+        grp.deg_list, grp.deg_min, grp.deg_max, grp.repeated_allowed = [99], None, None, rng.random() < 0.5   # stale state
+        g = nx.MultiDiGraph()
+        g.edge_attr_dict_factory = HashableDict
+        g.add_nodes_from(members + others + [grp])
+        es = set()
+
+        def add(u, v, t):
+            key = g.new_edge_key(u, v)
+            add_edge(g, u, v, key=key, edge_type=t)
+            es.add((u, v, key, t))
+        for m in members:
+            add(m, grp, EdgeType.DERIVES)
+        for o in others:       # not members: other edge types into the group, or edges out of it
+            if rng.random() < 0.5:
+                add(o, grp, rng.choice([EdgeType.INCOMPATIBILITY, EdgeType.EXCLUDES]))
+            else:
+                add(grp, o, EdgeType.DERIVES)
+
+        class G:
+            edge_set = es
+        env = {'self': grp, 'graph': G, 'existing_nodes': None, 'EdgeType': EdgeType,
+               'COMBINED': (lambda cs: tuple(ConnectorDegreeGroupingNode.get_combined_deg(list(cs)))),
+               'REPEATED': (lambda cs: ConnectorDegreeGroupingNode.get_repeated_allowed(list(cs)))}
+
+        def call(grp=grp, g=g):
+            from pyvc.replay import SegmentResult
+            grp.update_deg(g)
+            cs = [e[0] for e in g.in_edges(grp, keys=True, data=True) if e[3].get('type') == EdgeType.DERIVES]
+            return SegmentResult(None, {'connectors': cs}, False)
+        yield (env, call, {'Ref': members + others + [grp], EDGE: list(es)},
+               f'update_deg: members {[(m.name, m.deg_list, m.repeated_allowed) for m in members]}, non-members {[o.name for o in others]}')
+
+
+DOMAIN[N_ + 'ConnectorDegreeGroupingNode.update_deg@whole-graph'] = _domain_update_deg
